@@ -102,7 +102,7 @@ def real_parse(args, ini_text):
         root.level = lvl
 
 
-WORDS = ['a', 'b1', 'data', 'x.py', 'foo-bar', 'r_2', 'out.txt', 'UP', '0', '17', 'été', 'a b', 'k=v', 'redis://h:1', 'dict_store']
+WORDS = ['a', 'b1', 'data', 'x.py', 'foo-bar', 'r_2', 'out.txt', 'UP', '0', '17', 'été', 'a b', 'k=v', 'redis://h:1', 'dict_store', '@alice', '@out.txt', '+x', '#tag']
 BOOLS = ['1', 'true', 'false', '0', '', 'yes', 'off', 'no']
 
 
